@@ -67,6 +67,8 @@ type histCase struct {
 	R     wm.Rec
 }
 
+const prologue = "prologue.c05.\t1\tIN\tA\t192.0.2.9"
+
 type plainReader struct{ r io.Reader }
 
 func (p plainReader) Read(b []byte) (int, error) { return p.r.Read(b) }
@@ -167,6 +169,15 @@ func checkHist(c histCase) error {
 	}
 	pbt.Note(key, nontrivial, classes...)
 	pbt.Class("type:" + tn)
+
+	// The verdict has to be a function of the case, also when the library under test carries state
+	// from call to call: a case that was abandoned at its first violation (every candidate of the
+	// shrinker is) must not decide the fate of the next one. Every case therefore starts with the
+	// same call, a plain record through the plainest entry; nothing is asserted about it (an
+	// assertion here could not be replayed), it is only counted.
+	if rr, err := dns.NewRR(prologue); err != nil || rr == nil || rr.String() != prologue {
+		pbt.Class("prologue-disturbed-by-earlier-case")
+	}
 
 	for i, s := range c.Steps {
 		if directive(s.Text) {
